@@ -215,6 +215,17 @@ def run_family(ctx, prop, clause_of, nontrivial, rule, want=("steps", "dec", "ch
     ctx.notes.append(f"phases: generate+instantiate {t1 - t0:.1f}s, record {t2 - t1:.1f}s, validate {_t.time() - t2:.1f}s")
     failures, mach, samples = [], [], []
     nontriv, outdom = set(), 0
+    opcount = {}
+    for rec in records:
+        for o in rec["prog"]:
+            opcount[o["o"]] = opcount.get(o["o"], 0) + 1
+    modelled = ["CONST", "MARK", "PROTO", "FRAME", "POP", "POP_MARK", "DUP", "PUT", "MEMOIZE", "GET", "GLOBAL", "STACK_GLOBAL",
+                "EMPTY_TUPLE", "TUPLE1", "TUPLE2", "TUPLE3", "TUPLE", "EMPTY_LIST", "EMPTY_DICT", "EMPTY_SET", "LIST", "DICT",
+                "FROZENSET", "APPEND", "APPENDS", "SETITEM", "SETITEMS", "ADDITEMS", "REDUCE", "NEWOBJ", "NEWOBJ_EX", "OBJ",
+                "INST", "BUILD", "BINPERSID", "PERSID", "STOP"]
+    never = [o for o in modelled if not opcount.get(o)]
+    if never:       # vacuity guard: every transition of the reference machine must be exercised by the tier's inputs
+        mach.append("opcodes of the specification never exercised by this run: " + ",".join(never))
     for rec in records:
         v = verdicts[rec["id"]]
         if v["ref"] != "ok":
@@ -246,7 +257,7 @@ def run_family(ctx, prop, clause_of, nontrivial, rule, want=("steps", "dec", "ch
     return finish(ctx, level="model_checking", failures=failures, evaluations=len(records),
                   distinct_nontrivial=len(nontriv), rule=rule, samples=samples, traces=len(records),
                   assumptions=ASSUME, machinery_errors=mach,
-                  extra={"out_of_typed_domain": outdom, "exhaustive": False,
+                  extra={"out_of_typed_domain": outdom, "exhaustive": False, "opcode_occurrences": opcount,
                          "profiles": [f"{g['profile']}:len{g['maxlen']}" + (":simulate" if g.get("simulate") else ":exhaustive")
                                       + (":require=" + "+".join(g["require"]) if g.get("require") else "") for g in P["plan"]]})
 
